@@ -28,6 +28,9 @@ type C16Case struct {
 	// Corrupt: index of the line that is corrupted in the metamorphic part (-1: none)
 	Corrupt     int    `json:"corrupt"`
 	CorruptText string `json:"corruptText,omitempty"`
+	// UnknownFirst: the file starts with an annotation that names an undeclared class (a non-syntax
+	// annotation warning in front of everything else)
+	UnknownFirst bool `json:"unknownFirst,omitempty"`
 }
 
 func init() { register("C16", checkC16) }
@@ -116,6 +119,7 @@ func genC16(t *rapid.T) C16Case {
 		c.Lines = append(c.Lines, l)
 	}
 	c.Corrupt = -1
+	c.UnknownFirst = rapid.IntRange(0, 2).Draw(t, "unknownFirst") == 0
 	if rapid.IntRange(0, 2).Draw(t, "withCorruption") == 0 {
 		c.Corrupt = rapid.IntRange(0, len(c.Lines)-1).Draw(t, "corruptLine")
 		txt := c.Lines[c.Corrupt].Text
@@ -161,10 +165,16 @@ func splitAnnotTokens(s string) []string {
 
 // c16File embeds the lines in an otherwise valid file: a preamble declaring every referenced class,
 // then one block per line with the Lua statement the annotation belongs to.
-func c16File(lines []string, kinds []string) (text string, lineOf []int) {
+func c16File(lines []string, kinds []string, unknownFirst bool) (text string, lineOf []int) {
 	var b strings.Builder
+	if unknownFirst {
+		b.WriteString("---@type NoSuchCls0\nlocal u0 = nil\nprint(u0)\n\n")
+	}
 	b.WriteString("---@class Cls1\n---@field base number\n\n---@class Cls2 : Cls1\n\n---@class Cls3\n\n---@alias Alias1 number\n\n")
 	ln := 9
+	if unknownFirst {
+		ln += 4
+	}
 	for i, l := range lines {
 		lineOf = append(lineOf, ln)
 		switch kinds[i] {
@@ -248,9 +258,12 @@ func checkC16(c C16Case, env *Env) *Violation {
 		texts = append(texts, l.Text)
 		kinds = append(kinds, l.Kind)
 	}
-	fileText, lineOf := c16File(texts, kinds)
+	fileText, lineOf := c16File(texts, kinds, c.UnknownFirst)
 	run := func(text string) (diagSet, map[int][]string, *Violation) {
-		req := &proto.Request{Cmd: "session", Files: []proto.File{{Path: "main.lua", Data: []byte(text)}}, InitOptions: harness.J(harness.AllOn())}
+		req := &proto.Request{Cmd: "session", Files: []proto.File{{Path: "main.lua", Data: []byte(text)}, {Path: "other.lua", Data: []byte("print(1)\n")}},
+			InitOptions: harness.J(harness.AllOn())}
+		// an unrelated file changes on disk: the workspace is checked again, main.lua is not re-read
+		req.Steps = []proto.Step{{Op: "barrier"}, {Op: "write", Path: "other.lua", Data: []byte("print(2)\n")}, harness.Watched([2]interface{}{"other.lua", 2})}
 		so := env.Exec(req)
 		if so.Crash() {
 			return nil, nil, violf("crash", "server died: %s\n%s", so.Describe(), text)
@@ -264,6 +277,10 @@ func checkC16(c C16Case, env *Env) *Violation {
 				byLine[d.SL] = append(byLine[d.SL], fmt.Sprintf("%d|%d:%d-%d:%d|%s", d.Type, d.SL, d.SC, d.EL, d.EC, d.Message))
 			}
 		}
+		before, after := viewOf(so.Resp.Pushes, 0).ofFile("main.lua", func(int) bool { return true }), viewOf(so.Resp.Pushes, 1<<30).ofFile("main.lua", func(int) bool { return true })
+		if d := diffSets(after, before); d != "" {
+			return nil, nil, violf("recheck-changed", "after an unrelated file changed on disk the diagnostics of main.lua differ from those of the initial analysis:\n%s\n%s", d, text)
+		}
 		return viewOf(so.Resp.Pushes, 1<<30), byLine, nil
 	}
 	base, baseByLine, v := run(fileText)
@@ -271,6 +288,9 @@ func checkC16(c C16Case, env *Env) *Violation {
 		return v
 	}
 	for k := range base {
+		if c.UnknownFirst && strings.Contains(k, "NoSuchCls0") {
+			continue
+		}
 		if strings.Contains(k, "|18|") {
 			return violf("warned", "a file of documented annotation lines gets an annotation warning: %s\n%s", k, fileText)
 		}
@@ -279,7 +299,7 @@ func checkC16(c C16Case, env *Env) *Violation {
 		texts2 := append([]string{}, texts...)
 		texts2[c.Corrupt] = c.CorruptText
 		// is the corrupted line still a documented line? (corruptions that happen to be valid are don't-care)
-		fileText2, _ := c16File(texts2, kinds)
+		fileText2, _ := c16File(texts2, kinds, c.UnknownFirst)
 		_, byLine2, v := run(fileText2)
 		if v != nil {
 			return v
